@@ -30,6 +30,7 @@ from ..report import Report
 from ..facts import holds, canon
 from ..model import walk_own
 from .. import dataflow
+from . import common
 
 ENV = 'slimta.envelope.Envelope'
 HOOKS = {'__getstate__', '__setstate__', '__reduce__', '__reduce_ex__',
@@ -81,6 +82,16 @@ def run(e: Engine, rep: Report):
              '(`x.policy != SMTP`; policies compare by identity, and '
              'deepcopy / pickle make a new one)')
     e10(e, rep)
+    rep.rule('E11', 'flatten() writes the headers with the generator: on '
+             'every path to its return a BytesGenerator(...).flatten(...) '
+             'ran (the binary fold keeps parsed 8-bit values as they are; '
+             'the text fold re-encodes them)')
+    e11(e, rep)
+    rep.rule('E12', 'the header block is parsed as headers only: the '
+             'parse() call of Envelope.parse passes headersonly (the stdlib '
+             'parser otherwise acts on Content-Type and builds sub-messages '
+             'out of a block that has no body)')
+    e12(e, rep)
     rep.floor('E2', 4, 'body provenance obligations')
 
 
@@ -840,3 +851,97 @@ def e10(e: Engine, rep: Report):
     else:
         rep.ok('E10', 'slimta.envelope', 'no comparison of policy objects',
                reason='%d functions scanned' % n, nontrivial=False)
+
+
+# --------------------------------------------------------------------- E11
+def e11(e: Engine, rep: Report):
+    ctx = e.method_ctx(ENV, 'flatten')
+    g = e.build(ctx, raises=lambda b, n, r: set(),
+                inline=e.inline_same_self(), max_depth=3)
+    where = ctx.func.qname
+    rep.functions.add(where)
+    m = e.p.modules.get('slimta.envelope')
+    partials = {t.id for st in m.tree.body if isinstance(st, ast.Assign) and
+                isinstance(st.value, ast.Call) and
+                ast.unparse(st.value.func).rpartition('.')[2] == 'partial'
+                and st.value.args and 'Generator' in ast.unparse(
+                    st.value.args[0])
+                for t in st.targets if isinstance(t, ast.Name)}
+    gens = [n for n in g.calls() if e.call_name(n) == 'flatten' and
+            n.frame is not g.entry.frame or (
+                e.call_name(n) == 'flatten' and
+                isinstance(n.ast.func, ast.Attribute) and
+                isinstance(n.ast.func.value, ast.Call))]
+    gens = [n for n in gens if isinstance(n.ast.func, ast.Attribute) and (
+        (isinstance(n.ast.func.value, ast.Call) and (
+            'Generator' in ast.unparse(n.ast.func.value.func) or
+            ast.unparse(n.ast.func.value.func) in partials)) or
+        isinstance(n.ast.func.value, ast.Name))]
+    rets = [r for r in g.of_kind('stmt') if isinstance(r.ast, ast.Return)
+            and r.frame is g.entry.frame]
+    rep.evaluations += 1
+    if not rets:
+        rep.error('anchor vanished: return of Envelope.flatten')
+        return
+    w = None
+    for r in rets:
+        w = w or dataflow.typestate_witness(
+            g, False, lambda n, l, st: True if n in gens else st,
+            lambda n, st, r=r: n is r and not st)
+    rep.check(w is None, 'E11', where,
+              'the header block is written by the generator',
+              'flatten() can return a header block that no '
+              'BytesGenerator(...).flatten(...) produced: header values '
+              'that hold raw 8-bit bytes are folded as text and come back '
+              'RFC 2047-encoded (`=?unknown-8bit?...?=`) - not the values '
+              'that were parsed', loc=ctx.func.loc(),
+              reason='generator on every path',
+              witness=dataflow.render_path(w, 10) if w else None)
+
+
+# --------------------------------------------------------------------- E12
+def e12(e: Engine, rep: Report):
+    ctx = e.method_ctx(ENV, 'parse')
+    g = e.build(ctx, raises=lambda b, n, r: set(),
+                inline=e.inline_same_self(), max_depth=3)
+    where = ctx.func.qname
+    rep.functions.add(where)
+    sites = [n for n in g.calls() if e.call_name(n) == 'parse' and
+             isinstance(n.ast.func, ast.Attribute) and
+             n.frame is not g.entry.frame or (
+                 e.call_name(n) in ('parse', 'parsebytes') and
+                 isinstance(n.ast.func, ast.Attribute) and (
+                     'Parser' in ast.unparse(n.ast.func.value) or
+                     ast.unparse(n.ast.func.value).startswith('_')))]
+    rep.evaluations += 1
+    if not sites:
+        rep.unknown('E12', where, 'headers-only parse',
+                    'cannot see the parser call below Envelope.parse',
+                    loc=ctx.func.loc())
+        return
+    for n in sites:
+        rep.evaluations += 1
+        args = list(n.ast.args)
+        extra = []
+        for a in args[1:]:
+            if isinstance(a, ast.Starred) and n.frame.star_args is not None \
+                    and isinstance(a.value, ast.Name) and \
+                    n.frame.ctx.func.node.args.vararg is not None and \
+                    a.value.id == n.frame.ctx.func.node.args.vararg.arg:
+                extra += [x for x, _f in n.frame.star_args]
+            else:
+                a2, _ = common.deref(a, n.frame)
+                extra.append(a2)
+        for k in n.ast.keywords:
+            if k.arg == 'headersonly':
+                extra.append(k.value)
+        ok = any(isinstance(x, ast.Constant) and x.value is True or
+                 (isinstance(x, ast.Constant) and x.value == 1)
+                 for x in extra)
+        rep.check(ok, 'E12', where, '`%s` is given headersonly' % n.text(40),
+                  'the header block is parsed without headersonly: for a '
+                  'top-level Content-Type of message/* the parser turns the '
+                  '(empty) rest into a sub-message list, which parse() then '
+                  'treats as left-over body text and fails on - a '
+                  'well-formed message is refused', loc=n.loc(),
+                  reason='second argument True')
